@@ -218,7 +218,8 @@ def run_check(pid, tier, seed, replay=None):
         for h in herrs[:3]:
             print("HARNESS-ERROR in job %s: %s: %s\n%s" % (json.dumps(h["job"])[:200], h["type"], h["msg"], h["tb"]), file=sys.stderr)
         print("HARNESS-ERROR property=%s %d job(s) raised inside the harness" % (pid, len(herrs)))
-        return 2
+        if not distinct:
+            return 2
     if total.evaluations == 0:
         print("HARNESS-ERROR property=%s nothing was explored" % pid)
         return 2
